@@ -15,6 +15,11 @@
   * `closing()` is read: by `Serve` before every `Accept`; by `handleLoop` right after the
     registration (`closingCheck0`); by `handle` AFTER the request was read (`closingCheck`);
     by `writeResponse` before the head is written.
+  * the context `run` hands to `Shutdown` is built by `shutdownContext` (shutdown.go) from the
+    configured shutdown timeout: a positive timeout gives a context that may expire (`ctxExpire`),
+    the timeout 0 ("no limit") gives one that NEVER expires.  This is the parameter `noLimit` of the
+    initial state (`init` / `initNoLimit`); no action changes it.  (rig b: the context handed to
+    `Shutdown(ctx)` by the caller.)
   * a successful CONNECT is answered with the fixed bytes `HTTP/1.1 200 OK\r\n\r\n`
     (`writeConnectOKResponse`): the `Connection: close` that `writeResponse` adds to the header
     map while closing is never written, and `res.Close` makes `tunnel` return before any copy.
@@ -248,11 +253,16 @@ structure State where
   serve : SrvPC := .checking
   shut : SPC := .idle
   ctxExpired : Bool := false
+  noLimit : Bool := false               -- the context given to `Shutdown` has no deadline (shutdown timeout 0): it never expires
   close : CPC := .idle
   runner : RPC := .idle
   sweepLeft : List ConnId := []         -- `Close`: connections of its `range p.conns` not yet closed
 
 def init : State := {}
+
+/-- the initial state of a proxy configured with shutdown timeout 0 = no limit (`shutdownContext`
+    adds no deadline), resp. of a `Shutdown(ctx)` whose context never expires -/
+def initNoLimit : State := { noLimit := true }
 
 inductive Action where
   | conn (c : ConnId) (a : CAct)
@@ -342,7 +352,9 @@ def step (s : State) : Action → Option State
   | .closeCall =>
     if s.close = .idle ∧ s.runner = .idle then some { s with close := .waitingForLock } else none
   | .closeRet => if s.close = .done then some s else none
-  | .ctxExpire => some { s with ctxExpired := true }
+  | .ctxExpire =>
+    -- a context without deadline never expires
+    if s.noLimit = true then none else some { s with ctxExpired := true }
   | .cancel => if s.runner = .idle ∧ s.shut = .idle ∧ s.close = .idle then some { s with runner := .cancelled } else none
   | .runRet => if s.runner = .finished then some s else none
   | .serveCheck =>
@@ -406,9 +418,10 @@ def run (s : State) : List Action → Option State
     | some s' => run s' as
     | none => none
 
-/-- reachable by some interleaving from the initial state -/
+/-- reachable by some interleaving from an initial state (either kind of context) -/
 inductive Reachable : State → Prop where
   | init : Reachable init
+  | initNoLimit : Reachable initNoLimit
   | step {s s' : State} (a : Action) : Reachable s → step s a = some s' → Reachable s'
 
 /-- number of connections between register and counterDec -/
